@@ -25,7 +25,7 @@ ASSUMPTIONS = [
     "pandas round trips are checked for column types pandas can carry (no list-valued or quality columns).",
 ]
 REQUIRED_CLASSES = ["table-read-from-file", "dict-roundtrip", "bam", "concat", "sort_by", "replace", "add_fields", "pandas", "from_entry_tuples", "bad-construction", "empty-operand", "single-row-operand",
-                    "dynamic-class", "nested-table", "mixed-dtype-concat", "int-index"]
+                    "dynamic-class", "nested-table", "mixed-dtype-concat", "int-index", "rows-taken-by-tolist-first"]
 BOUNDS = {"quick": "300 programs of up to 12 steps for each of 16 table types, tables of up to 6 rows", "thorough": "4000 programs of up to 30 steps per type, tables of up to 20 rows"}
 BUDGET_S = {"quick": 200, "thorough": 1500}
 
@@ -148,6 +148,19 @@ def actual_rows(table):
     return [tuple(tuple(x) if isinstance(x, tuple) else x for x in r) for r in rows]
 
 
+def entry_tuple(e):
+    """One entry of tolist() as a tuple of plain values (a nested entry becomes a tuple too)."""
+    vals = []
+    for f in dataclasses.fields(e):
+        v = getattr(e, f.name)
+        if dataclasses.is_dataclass(v):
+            v = entry_tuple(v)
+        elif hasattr(v, "tolist") and not isinstance(v, (str, bytes)):
+            v = v.tolist()
+        vals.append(v)
+    return tuple(vals)
+
+
 def columns_aligned(table):
     n = len(table)
     for f in dataclasses.fields(table):
@@ -167,6 +180,8 @@ def classify(case):
         cl.append("int-index")
     if case.get("from_file") and case["rows"]:
         cl.append("table-read-from-file")
+    if case.get("tolist_first") and case["rows"]:
+        cl.append("rows-taken-by-tolist-first")
     if tname in DYNAMIC:
         cl.append("dynamic-class")
     if tname == "dyn_nested":
@@ -207,6 +222,17 @@ def check(case, stats=None):
     out = []
 
     def verify(table, rows, op):
+        if case.get("tolist_first") and len(rows):
+            # the rows as tolist() hands them out, taken before anything else has looked at the table
+            try:
+                ents = [entry_tuple(e) for e in table.tolist()]
+            except Exception as e:
+                out.append(Failure(f"C19:tolist-raised:{op['op']}:{type(e).__name__}:{_where(e)}", {"error": repr(e)[:300], "op": op, "type": tname}))
+                return False
+            want = model_rows(tname, rows)
+            if not formats.rows_equal(want, ents, ulps=0):
+                out.append(Failure(f"C19:tolist-rows-differ:{op['op']}", dict(formats.first_row_diff(want, ents, 0) or {}, op=op, type=tname)))
+                return False
         bad = columns_aligned(table)
         if bad:
             out.append(Failure(f"C19:columns-not-aligned:{op['op']}", {"column": bad, "op": op}))
@@ -492,7 +518,7 @@ def c19_case(draw, tname, max_rows, max_steps):
             row[8] = draw(st.text(alphabet="!5I~#", min_size=len(row[7]), max_size=len(row[7])))
         rows.append(row)
     return {"type": tname, "rows": rows, "variant": draw(st.sampled_from([0, 1, 2])), "program": draw(st.lists(op_strategy(), min_size=1, max_size=max_steps)),
-            "from_file": tname in FILE_TYPES and draw(st.integers(0, 2)) == 0}
+            "from_file": tname in FILE_TYPES and draw(st.integers(0, 2)) == 0, "tolist_first": draw(st.integers(0, 2)) == 0}
 
 
 def task_type(stats, known_open, tname, n, seed, max_rows, max_steps):
